@@ -27,6 +27,7 @@
 ******************************************************************************/
 
 static void COTPdoMapClear(CO_TPDO_LINK *map);
+static void COTPdoMapDel(CO_TPDO_LINK *map, uint16_t num);
 
 /******************************************************************************
 * PRIVATE HELPER FUNCTIONS
@@ -39,6 +40,18 @@ static void COTPdoMapClear(CO_TPDO_LINK *map)
     for (id = 0; id < (CO_TPDO_N << 3); id++) {
         map[id].Obj  = 0;
         map[id].Num  = 0xFFFF;
+    }
+}
+
+static void COTPdoMapDel(CO_TPDO_LINK *map, uint16_t num)
+{
+    uint16_t id;
+
+    for (id = 0; id < (CO_TPDO_N << 3); id++) {
+        if (map[id].Num == num) {
+            map[id].Obj  = 0;
+            map[id].Num  = 0xFFFF;
+        }
     }
 }
 
@@ -111,6 +124,8 @@ void COTPdoReset(CO_TPDO *pdo, uint16_t num)
         COSyncRemove(sync, num, CO_SYNC_FLG_TX);
     }
     wp->Flags = 0;
+    /* the object links of the previous mapping of this TPDO are rebuilt below */
+    COTPdoMapDel(wp->Node->TMap, num);
     
     /* pdo communication settings */
     err = CODictRdByte(cod, CO_DEV(0x1800 + num, 2), &type);
